@@ -341,3 +341,43 @@ def reset_clears_results(db, ctx):
     d = db.one("do_tokenize", "StatefulTokenizer")
     early = [ek for ifn, cond, pol, ek, ps in guarded_exits(d.hir) if ek in ("ok", "ret")]
     ctx.ob("do_tokenize|has-early-ok-return", len(early) >= 1, "do_tokenize has %d early successful returns (why the clear must live in reset())" % len(early), fn=d, nontrivial=False)
+
+
+@rule("C10.edits-consumed", "pending edits never survive resolve_edits: the list is consumed by `drain(..)` as the loop iterator (emptied on every "
+                            "exit, including the early return on overflow), or cleared before each return; rollback clears it")
+def edits_consumed(db, ctx):
+    f = db.one("resolve_edits", None)
+    loops = []
+    for n, ps in walk(f.hir):
+        fl = for_loop_parts(n) if n.get("k") == "Match" else None
+        if fl:
+            loops.append((n, fl))
+    if not loops:
+        raise AnchorMissing("resolve_edits: loop over the pending edits")
+    n, (it, pat, body) = loops[0]
+    itx = peel(it)
+    drains = itx.get("k") == "MethodCall" and itx.get("method") == "drain" and local_name(itx["recv"]) == "edits" and "RangeFull" in render(itx["args"][0])
+    rets = [x for x, _ in walk(body) if x.get("k") == "Ret"]
+    if drains:
+        ok = True
+        how = "iterated with edits.drain(..): dropping the iterator empties the list on every exit"
+    else:
+        # every early return inside the loop must be preceded, in its own block, by edits.clear()
+        ok = True
+        for r in rets:
+            cleared = False
+            for x, ps in walk(body):
+                if x.get("k") == "Block" and any(st.get("e") is r or (st.get("e") or {}).get("id") == r.get("id") for st in x.get("stmts", [])):
+                    for st in x["stmts"]:
+                        e = st.get("e") or {}
+                        if e is r:
+                            break
+                        if e.get("k") == "MethodCall" and e.get("method") == "clear" and local_name(e["recv"]) == "edits":
+                            cleared = True
+            ok = ok and cleared
+        how = "iterated by reference with %d early return(s) inside the loop; each preceded by edits.clear(): %s" % (len(rets), ok)
+    ctx.ob("resolve_edits|edits-emptied-on-every-exit", ok, "pending edits: %s%s" % (how, "" if ok else " — after an input rejected as too long the next "
+                                                                                     "analysis on the same tokenizer applies the rejected text's edits"), fn=f)
+    rb = db.one("rollback", "InputBuffer")
+    ok2 = any(c.get("k") == "MethodCall" and c.get("method") in ("clear", "drain", "truncate") and "replaces" in render(c["recv"]) for c, _ in walk(rb.hir))
+    ctx.ob("rollback|clears", ok2, "InputBuffer::rollback discards the pending edits: %s" % ok2, fn=rb)
